@@ -45,7 +45,7 @@ func (e *Env) runJob(j *Job) {
 	// serialised by the scheduler, and with one P the per-P caches of
 	// sync.Pool (which a changed library might introduce) behave the same in
 	// every process.  The workers give the parallelism.
-	cmd.Env = append(append(os.Environ(), "GOMAXPROCS=1"), j.Env...)
+	cmd.Env = append(append(os.Environ(), "GOMAXPROCS=1", fmt.Sprintf("VERIF_DEPTH=%d", e.Depth)), j.Env...)
 	var stdout, stderr bytes.Buffer
 	cmd.Stdout, cmd.Stderr = &stdout, &stderr
 	t0 := time.Now()
